@@ -320,3 +320,205 @@ Proof. intros Hs Ht. rewrite permS_mid_occ; auto.
   - apply state_eqb_eq in E. subst. rewrite state_eqb_refl. reflexivity.
   - destruct (state_eqb s t) eqn:E'; auto. apply state_eqb_eq in E'. subst. rewrite state_eqb_refl in E. discriminate. Qed.
 End Symmetry.
+
+(* ------------------------------------------------------------------------------------------ *)
+Section Corollaries.
+Variable R : cring.
+Add Ring Rring4 : (Kth R).
+Open Scope K_scope.
+Notation mat := (mat R).
+
+Lemma in_down_from' n a : (a <= n)%nat -> In a (down_from n).
+Proof. induction n; simpl; intros H. left; lia.
+  destruct (Nat.eq_dec a (S n)). left; congruence. right. apply IHn. lia. Qed.
+Lemma allstates_in m : forall n t, length t = m -> total t = n -> In t (allstates m n).
+Proof. induction m as [|m IH]; intros n t Hl Ht.
+  - destruct t; [|discriminate]. unfold total in Ht. simpl in Ht. subst. simpl. left. reflexivity.
+  - destruct t as [|a t]; [discriminate|]. cbn [allstates]. apply in_flat_map. exists a. split.
+    + apply in_down_from'. unfold total in Ht. simpl in Ht. lia.
+    + apply in_map. apply IH. simpl in Hl. lia. unfold total in *. simpl in Ht. lia. Qed.
+
+Lemma amp_ext (U U' : mat) m s t : meq m U U' -> length s = m -> amp_num U m s t = amp_num U' m s t.
+Proof. intros HU Hs. unfold amp_num. destruct (total s =? total t)%nat; auto.
+  apply permS_ext. exact HU. rewrite <- Hs. apply cols_of_bound. Qed.
+
+(* (H) for the amplitude numerators: zero photon-number mismatch included, any s and t *)
+Theorem amp_hom (A B : mat) m s t :
+  amp_num (mmul m A B) m s t = suml (allstates m (total s)) (fun u => amp_num A m u t * slos_coef B m s u).
+Proof. unfold amp_num, slos_coef. destruct (total s =? total t)%nat eqn:E.
+  - rewrite fock_hom, cols_of_length. apply suml_ext_in. intros u Hu. apply allstates_sound in Hu as [_ Tu].
+    rewrite Tu, E. reflexivity.
+  - symmetry. apply suml_zero. intros u Hu. apply allstates_sound in Hu as [_ Tu]. rewrite Tu, E. ring. Qed.
+
+(* the same with the division by prod u! written as a multiplication by its inverse w u *)
+Theorem amp_hom_w (A B : mat) m s t (w : state -> R) :
+  (forall u, In u (allstates m (total s)) -> of_nat (factprod u) * w u = k1) ->
+  amp_num (mmul m A B) m s t = suml (allstates m (total s)) (fun u => amp_num A m u t * amp_num B m s u * w u).
+Proof. intros Hw. rewrite amp_hom. apply suml_ext_in. intros u Hu. pose proof (Hw u Hu) as E.
+  apply allstates_sound in Hu as [_ Tu]. unfold slos_coef. unfold amp_num at 3. rewrite Tu, Nat.eqb_refl.
+  rewrite permS_slos.
+  transitivity (amp_num A m u t * slos B m (cols_of s) u * (of_nat (factprod u) * w u)). rewrite E; ring. ring. Qed.
+
+(* the same with every term multiplied by a common multiple N of the prod u!  (c u = N / prod u!) *)
+Theorem fock_hom_common_multiple (A B : mat) m cols t (N : nat) (c : state -> nat) :
+  (forall u, In u (allstates m (length cols)) -> (c u * factprod u = N)%nat) ->
+  of_nat N * permS (mmul m A B) m cols t =
+  suml (allstates m (length cols)) (fun u => of_nat (c u) * (permS A m (cols_of u) t * permS B m cols u)).
+Proof. intros Hc. rewrite fock_hom, <- suml_scal. apply suml_ext_in. intros u Hu.
+  rewrite <- (Hc u Hu), of_nat_mul, (permS_slos R B m cols u). ring. Qed.
+
+(* ---------------- (C1): the output distribution of a unitary sums to one ---------------- *)
+(* |amp|^2 / prod t! = amp_num * conj(slos_coef);  the sum over all outputs is prod s! *)
+Theorem dist_sums_to_one (U : mat) m s : unitary m U -> length s = m ->
+  suml (allstates m (total s)) (fun t => amp_num U m s t * kconj (slos_coef U m s t)) = of_nat (factprod s).
+Proof. intros [_ HU] Hs.
+  pose proof (fock_hom R (madj U) U m (cols_of s) s) as H.
+  rewrite (permS_ext R _ mid m (cols_of s) HU) in H by (rewrite <- Hs; apply cols_of_bound).
+  rewrite (permS_mid R m s s Hs Hs), state_eqb_refl, cols_of_length in H.
+  rewrite H. apply suml_ext_in. intros u Hu. apply allstates_sound in Hu as [Lu Tu].
+  unfold amp_num, slos_coef. rewrite Tu, Nat.eqb_refl. rewrite permS_madj by assumption.
+  rewrite permS_slos, conj_mul, conj_of_nat. ring. Qed.
+
+(* with probabilities |amp_num|^2 / norm2 s t, the division written as multiplication by an inverse p t *)
+Theorem dist_sums_to_one_prob (U : mat) m s (p : state -> R) : unitary m U -> length s = m ->
+  (forall t, In t (allstates m (total s)) -> of_nat (norm2 s t) * p t = k1) ->
+  suml (allstates m (total s)) (fun t => amp_num U m s t * kconj (amp_num U m s t) * p t) = k1.
+Proof. intros HU Hs Hp.
+  set (X := suml (allstates m (total s)) (fun t => amp_num U m s t * kconj (amp_num U m s t) * p t)).
+  assert (E : of_nat (factprod s) * X = of_nat (factprod s)).
+  { unfold X. rewrite <- suml_scal. etransitivity; [|exact (dist_sums_to_one U m s HU Hs)].
+    apply suml_ext_in. intros t Ht. pose proof (Hp t Ht) as Et. apply allstates_sound in Ht as [_ Tt].
+    unfold norm2 in Et. rewrite of_nat_mul in Et.
+    unfold slos_coef. unfold amp_num at 2. rewrite Tt, Nat.eqb_refl. rewrite permS_slos, conj_mul, conj_of_nat.
+    transitivity (amp_num U m s t * kconj (slos U m (cols_of s) t) * (of_nat (factprod s) * of_nat (factprod t) * p t)).
+    ring. rewrite Et. ring. }
+  pose proof (Hp s (allstates_in m (total s) s Hs eq_refl)) as Es. unfold norm2 in Es. rewrite of_nat_mul in Es.
+  transitivity (of_nat (factprod s) * p s * (of_nat (factprod s) * X)).
+  { transitivity (of_nat (factprod s) * of_nat (factprod s) * p s * X). rewrite Es. ring. ring. }
+  rewrite E. rewrite <- Es. ring. Qed.
+
+(* ---------------- (C2): evolving component by component ---------------- *)
+(* one component acting on a vector of amplitude numerators indexed by the states of (m, n):
+   a'(t) = sum_u <t|A|u>-numerator * a(u) / prod u!   (w u = 1 / prod u!) *)
+Definition step (w : state -> R) m n (A : mat) (v : state -> R) : state -> R :=
+  fun t => suml (allstates m n) (fun u => amp_num A m u t * v u * w u).
+(* the components in the order the light crosses them *)
+Definition run (w : state -> R) m n (l : list mat) (v : state -> R) : state -> R :=
+  fold_left (fun v A => step w m n A v) l v.
+
+Lemma step_ext w m n A v v' : (forall u, In u (allstates m n) -> v u = v' u) ->
+  forall t, step w m n A v t = step w m n A v' t.
+Proof. intros H t. unfold step. apply suml_ext_in. intros u Hu. rewrite (H u Hu). reflexivity. Qed.
+Lemma run_ext w m n l : forall v v', (forall u, v u = v' u) -> forall t, run w m n l v t = run w m n l v' t.
+Proof. induction l as [|A l IH]; intros v v' H t. apply H.
+  change (run w m n (A :: l) v t) with (run w m n l (step w m n A v) t).
+  change (run w m n (A :: l) v' t) with (run w m n l (step w m n A v') t).
+  apply (IH (step w m n A v) (step w m n A v')). intros u. apply step_ext. intros; apply H. Qed.
+Lemma run_ext_in w m n l : forall v v', (forall u, In u (allstates m n) -> v u = v' u) ->
+  forall t, In t (allstates m n) -> run w m n l v t = run w m n l v' t.
+Proof. destruct l as [|A l]; intros v v' H t Ht. apply H; exact Ht.
+  change (run w m n (A :: l) v t) with (run w m n l (step w m n A v) t).
+  change (run w m n (A :: l) v' t) with (run w m n l (step w m n A v') t).
+  apply (run_ext w m n l). intros u. apply step_ext. exact H. Qed.
+
+Section Stepper.
+Variable w : state -> R.
+Variable m : nat.
+Variable s : state.
+Hypothesis Hs : length s = m.
+Hypothesis Hw : forall u, In u (allstates m (total s)) -> of_nat (factprod u) * w u = k1.
+
+(* one step is (H) *)
+Theorem step_is_spec (A B : mat) t :
+  step w m (total s) A (amp_num B m s) t = amp_num (mmul m A B) m s t.
+Proof. symmetry. apply amp_hom_w. exact Hw. Qed.
+
+Lemma run_amp l : forall (B : mat) t,
+  run w m (total s) l (amp_num B m s) t = amp_num (mmul m (oprod m l) B) m s t.
+Proof. induction l as [|A l IH]; intros B t.
+  - cbn [run fold_left oprod]. apply amp_ext; auto. symmetry. apply mmul_id_l.
+  - change (run w m (total s) (A :: l) (amp_num B m s) t)
+      with (run w m (total s) l (step w m (total s) A (amp_num B m s)) t).
+    rewrite (run_ext w m (total s) l _ (amp_num (mmul m A B) m s)) by (intros u; apply step_is_spec).
+    rewrite IH. cbn [oprod]. apply amp_ext; auto. symmetry. apply mmul_assoc. Qed.
+
+(* starting from the input basis state (whose amplitude-numerator vector is amp_num of the identity)
+   and crossing the components one after the other gives the amplitudes of the product matrix *)
+Theorem stepper_is_spec l t :
+  run w m (total s) l (amp_num mid m s) t = amp_num (oprod m l) m s t.
+Proof. rewrite run_amp. apply amp_ext; auto. apply mmul_id_r. Qed.
+
+(* the starting vector written out: prod s! on s, zero elsewhere *)
+Theorem stepper_is_spec_basis l t : In t (allstates m (total s)) ->
+  run w m (total s) l (fun u => if state_eqb s u then of_nat (factprod s) else k0) t = amp_num (oprod m l) m s t.
+Proof. intros Ht. rewrite <- stepper_is_spec. apply run_ext_in; auto.
+  intros u Hu. apply allstates_sound in Hu as [Lu Tu]. unfold amp_num. rewrite Tu, Nat.eqb_refl.
+  symmetry. apply permS_mid; auto. Qed.
+End Stepper.
+
+(* ---------------- the list form of (H): multilinearity in the columns ---------------- *)
+Fixpoint sum_lists (m n : nat) (F : list nat -> R) : R :=
+  match n with O => F [] | S n' => sumn m (fun l => sum_lists m n' (fun ls => F (l :: ls))) end.
+Fixpoint prodB (B : mat) (ls cols : list nat) : R :=
+  match ls, cols with l :: ls', k :: cols' => B l k * prodB B ls' cols' | _, _ => k1 end.
+
+Lemma sum_lists_ext m n : forall F G, (forall ls, F ls = G ls) -> sum_lists m n F = sum_lists m n G.
+Proof. induction n as [|n IH]; intros F G H; simpl. apply H. apply sumn_ext. intros l _. apply IH. intros; apply H. Qed.
+Lemma sum_lists_scal m n : forall c F, sum_lists m n (fun ls => c * F ls) = c * sum_lists m n F.
+Proof. induction n as [|n IH]; intros c F; simpl. reflexivity.
+  rewrite <- sumn_scal. apply sumn_ext. intros l _. apply IH. Qed.
+Lemma sum_lists_sumn m n k : forall F : list nat -> nat -> R,
+  sum_lists m n (fun ls => sumn k (fun j => F ls j)) = sumn k (fun j => sum_lists m n (fun ls => F ls j)).
+Proof. induction n as [|n IH]; intros F; simpl. reflexivity.
+  rewrite sumn_swap. apply sumn_ext. intros l _. apply IH. Qed.
+
+(* permS (A.B) [k1..kn] t = sum over (l1..ln) in [0,m)^n of prod_i B[l_i,k_i] * permS A [l1..ln] t *)
+Theorem fock_hom_lists (A B : mat) m cols : forall t,
+  permS (mmul m A B) m cols t = sum_lists m (length cols) (fun ls => prodB B ls cols * permS A m ls t).
+Proof. induction cols as [|k cols IH]; intros t.
+  - cbn [length sum_lists prodB permS]. ring.
+  - cbn [length sum_lists]. rewrite permS_cons.
+    transitivity (sumn m (fun j => sumn m (fun l => sum_lists m (length cols) (fun ls =>
+      wt R t j * (A j l * B l k) * (prodB B ls cols * permS A m ls (dec t j)))))).
+    + apply sumn_ext; intros j _. rewrite IH. unfold mmul.
+      rewrite <- sumn_scal, <- sumn_scal_r. apply sumn_ext; intros l _.
+      rewrite <- sum_lists_scal. reflexivity.
+    + rewrite sumn_swap. apply sumn_ext; intros l _. rewrite <- sum_lists_sumn.
+      apply sum_lists_ext. intros ls. cbn [prodB]. rewrite permS_cons. rewrite <- sumn_scal.
+      apply sumn_ext. intros j _. ring. Qed.
+End Corollaries.
+Arguments step {_}. Arguments run {_}. Arguments sum_lists {_}. Arguments prodB {_}.
+
+(* ------------------------------------------------------------------------------------------ *)
+(* the common multiple n!: each intermediate state u arises from n! / prod u! lists of modes *)
+Lemma fact_binom n : forall a b, (a + b = n)%nat -> exists c, (c * (fact a * fact b) = fact n)%nat.
+Proof. induction n as [|n IH]; intros a b H.
+  - assert (a = 0%nat) by lia. assert (b = 0%nat) by lia. subst. exists 1%nat. reflexivity.
+  - destruct a as [|a].
+    { exists 1%nat. simpl in H. subst b. simpl fact at 1. lia. }
+    destruct b as [|b].
+    { exists 1%nat. assert (n = a) by lia. subst n. simpl fact at 2. lia. }
+    destruct (IH a (S b) ltac:(lia)) as [c1 H1]. destruct (IH (S a) b ltac:(lia)) as [c2 H2].
+    exists (c1 + c2)%nat.
+    change (fact (S n)) with (S n * fact n)%nat.
+    transitivity (S a * (c1 * (fact a * fact (S b))) + S b * (c2 * (fact (S a) * fact b)))%nat.
+    + change (fact (S a)) with (S a * fact a)%nat. change (fact (S b)) with (S b * fact b)%nat. ring.
+    + rewrite H1, H2. replace (S n) with (S a + S b)%nat by lia. ring. Qed.
+Lemma factprod_divides (u : state) : exists c, (c * factprod u = fact (total u))%nat.
+Proof. induction u as [|x u [c' IH]]. exists 1%nat. reflexivity.
+  destruct (fact_binom (x + total u) x (total u) eq_refl) as [b Hb].
+  exists (b * c')%nat. change (total (x :: u)) with (x + total u)%nat. cbn [factprod].
+  rewrite <- Hb, <- IH. ring. Qed.
+Lemma factprod_pos (u : state) : (factprod u <> 0)%nat.
+Proof. induction u as [|x u IH]; simpl. lia. pose proof (fact_neq_0 x). nia. Qed.
+Definition multinom (u : state) : nat := (fact (total u) / factprod u)%nat.
+Lemma multinom_spec (u : state) : (multinom u * factprod u = fact (total u))%nat.
+Proof. destruct (factprod_divides u) as [c H]. unfold multinom. rewrite <- H.
+  rewrite Nat.div_mul by apply factprod_pos. reflexivity. Qed.
+
+Theorem fock_hom_multinomial (R : cring) (A B : mat R) m cols t :
+  kmul (of_nat (fact (length cols))) (permS (mmul m A B) m cols t) =
+  suml (allstates m (length cols))
+    (fun u => kmul (of_nat (multinom u)) (kmul (permS A m (cols_of u) t) (permS B m cols u))).
+Proof. apply fock_hom_common_multiple. intros u Hu. apply allstates_sound in Hu as [_ Tu].
+  rewrite <- Tu. apply multinom_spec. Qed.
